@@ -245,7 +245,8 @@ pub fn run_cfg(c: &Cfg) -> Result<Outcome, String> {
     marks.push(secs.last().unwrap() * 1000 + 5000);
     let reused = searcher()?;
     for (bi, b) in marks.iter().enumerate() {
-        for m in [1usize, 2, 3, 100] {
+        // usize::MAX: the natural "no limit"
+        for m in [1usize, 2, 3, 100, usize::MAX] {
             let want = expect_lines(&retained, *b, m);
             for (who, s) in [("fresh searcher", None), ("reused searcher", Some(&reused))] {
                 let fresh;
